@@ -1,13 +1,20 @@
 #!/usr/bin/env python3
-"""Regression run over /verif/seeded/*: apply each stored property-breaking patch to /repo's
-working tree, run the property's quick check, expect exit 1 with a VIOLATION line, undo.
+"""Regression run over /verif/seeded/*: apply each stored property-breaking patch to a SCRATCH
+COPY of /repo, run the property's quick check against that copy, expect exit 1 with a
+VIOLATION line.
 
     python3 vc/seeds.py [seed-dir-name ...]
 
-Refuses to start when /repo has uncommitted changes.  Writes seeded/RESULTS.json.
+/repo itself is only read: the copy (sources + a copy of target/ so the bounded stand-ins do not
+rebuild the dependencies) lives under /var/tmp/verif_seeds_<pid> and is removed at the end, and
+the evidence/replay files of these runs go to the same scratch directory (VERIF_OUT_DIR), never
+to /verif/evidence.  (An earlier version patched /repo's working tree in place and undid it with
+`git checkout`; a half-applied patch was once left behind that way, see DESIGN §9.)
+Writes seeded/RESULTS.json.
 """
 import json
 import os
+import shutil
 import subprocess
 import sys
 import time
@@ -20,40 +27,67 @@ def sh(cmd, **kw):
     return subprocess.run(cmd, shell=True, capture_output=True, text=True, **kw)
 
 
+def fresh_sources(scratch_repo):
+    """(Re)create the scratch copy's tracked sources from REPO's current working tree."""
+    r = sh("rsync -a --delete --exclude /target --exclude /.git %s/ %s/" % (REPO, scratch_repo))
+    if r.returncode != 0:
+        raise RuntimeError("rsync failed: " + r.stderr[-300:])
+
+
 def main():
-    if sh("git -C %s status --porcelain -- src" % REPO).stdout.strip():
-        print("refusing: %s has uncommitted changes under src/" % REPO)
-        return 2
     names = sys.argv[1:] or sorted(d for d in os.listdir(os.path.join(ROOT, "seeded"))
                                    if os.path.isdir(os.path.join(ROOT, "seeded", d)))
+    scratch = "/var/tmp/verif_seeds_%d" % os.getpid()
+    srepo, starget, sout = (os.path.join(scratch, x) for x in ("repo", "target", "out"))
     results = {}
-    for name in names:
-        d = os.path.join(ROOT, "seeded", name)
-        patch = os.path.join(d, "patch.diff")
-        if not os.path.exists(patch):
-            continue
-        prop = json.load(open(os.path.join(d, "meta.json")))["property"]
-        a = sh("git -C %s apply %s" % (REPO, patch))
-        if a.returncode != 0:
-            results[name] = {"property": prop, "applied": False, "error": a.stderr[-300:]}
-            print("%-40s patch does not apply" % name)
-            continue
-        t0 = time.time()
+    try:
+        os.makedirs(srepo)
+        os.makedirs(sout)
+        if os.path.isdir(os.path.join(REPO, "target", "debug")):
+            os.makedirs(starget)
+            sh("cp -a --reflink=auto %s/target/debug %s/debug" % (REPO, starget))
+        env = dict(os.environ)
+        env.update({"VERIF_REPO": srepo, "VERIF_TARGET_DIR": starget, "VERIF_OUT_DIR": sout,
+                    "VERIF_CACHE_SUFFIX": "_seeds", "CARGO_NET_OFFLINE": "true"})
+        for name in names:
+            d = os.path.join(ROOT, "seeded", name)
+            patch = os.path.join(d, "patch.diff")
+            if not os.path.exists(patch):
+                continue
+            prop = json.load(open(os.path.join(d, "meta.json")))["property"]
+            fresh_sources(srepo)
+            a = sh("git apply --unsafe-paths --directory=%s %s" % (srepo, patch), cwd="/")
+            if a.returncode != 0:
+                a = sh("patch -p1 --no-backup-if-mismatch -d %s < %s" % (srepo, patch))
+            if a.returncode != 0:
+                results[name] = {"property": prop, "applied": False, "error": (a.stderr or a.stdout)[-300:]}
+                print("%-40s patch does not apply" % name)
+                continue
+            t0 = time.time()
+            r = subprocess.run([sys.executable, os.path.join(ROOT, "vc", "check.py"), prop, "--tier", "quick"],
+                               capture_output=True, text=True, env=env)
+            viol = [ln for ln in r.stdout.split("\n") if ln.startswith("VIOLATION")]
+            und = [ln for ln in r.stdout.split("\n") if ln.startswith("UNDECIDED")]
+            results[name] = {"property": prop, "applied": True, "exit": r.returncode,
+                             "violations": [v.replace(sout, "<scratch>") for v in viol],
+                             "undecided": und[:5], "wall_s": round(time.time() - t0, 1),
+                             "caught": r.returncode == 1 and bool(viol),
+                             "with_input": any(not v.endswith("no-failing-input-found") for v in viol)}
+            print("%-40s exit=%s caught=%s %s" % (name, r.returncode, results[name]["caught"],
+                                                  "; ".join(v.split("replay=")[-1].split("/")[-1] for v in viol)[:160]))
+    finally:
+        shutil.rmtree(scratch, ignore_errors=True)
+        shutil.rmtree(os.path.join(ROOT, ".cache", "gen_seeds"), ignore_errors=True)
+    rp = os.path.join(ROOT, "seeded", "RESULTS.json")
+    merged = {}
+    if sys.argv[1:] and os.path.exists(rp):      # a partial run updates only the seeds it ran
         try:
-            r = sh("%s/check %s --tier quick" % (ROOT, prop))
-        finally:
-            sh("git -C %s checkout -- src" % REPO)
-        viol = [ln for ln in r.stdout.split("\n") if ln.startswith("VIOLATION")]
-        und = [ln for ln in r.stdout.split("\n") if ln.startswith("UNDECIDED")]
-        results[name] = {"property": prop, "applied": True, "exit": r.returncode, "violations": viol,
-                         "undecided": und[:5], "wall_s": round(time.time() - t0, 1),
-                         "caught": r.returncode == 1 and bool(viol),
-                         "with_input": any(not v.endswith("no-failing-input-found") for v in viol)}
-        print("%-40s exit=%s caught=%s %s" % (name, r.returncode, results[name]["caught"],
-                                              "; ".join(v.split("replay=")[-1].split("/")[-1] for v in viol)[:160]))
-    # the unchanged tree must be quiet again
-    json.dump(results, open(os.path.join(ROOT, "seeded", "RESULTS.json"), "w"), indent=1)
-    return 0 if all(r.get("caught") for r in results.values()) else 1
+            merged = json.load(open(rp))
+        except Exception:
+            merged = {}
+    merged.update(results)
+    json.dump(merged, open(rp, "w"), indent=1, sort_keys=True)
+    return 0 if results and all(r.get("caught") for r in results.values()) else 1
 
 
 if __name__ == "__main__":
